@@ -481,12 +481,6 @@ fn format(opt: opt::Opt) -> Result<i32> {
                     let path = entry.path().to_owned(); // TODO: stop to_owned?
                     let opt = opt.clone();
 
-                    // The same file can be reached with different spellings (`a.lua`, `./a.lua`, an absolute path)
-                    let canonical_path = fs::canonicalize(&path).unwrap_or_else(|_| path.clone());
-                    if !seen_files.insert(canonical_path) {
-                        continue;
-                    }
-
                     if path.is_file() {
                         // If the user didn't provide a glob pattern, we should match against our default one
                         if use_default_glob && should_respect_ignores(opt.as_ref(), path.as_path())
@@ -528,6 +522,16 @@ fn format(opt: opt::Opt) -> Result<i32> {
                                 }
                             }
                         {
+                            continue;
+                        }
+
+                        // The same file can be reached with different spellings (`a.lua`, `./a.lua`, an absolute path):
+                        // it is processed once. Only a file that is selected counts: an occurrence which was
+                        // filtered out above (e.g. met during traversal under a name the globs reject) must not
+                        // hide a later occurrence which is selected (the same file named explicitly)
+                        let canonical_path =
+                            fs::canonicalize(&path).unwrap_or_else(|_| path.clone());
+                        if !seen_files.insert(canonical_path) {
                             continue;
                         }
 
